@@ -84,13 +84,38 @@ def mszip_overrun(rng):
             for salv in (0, 1):
                 yield [f"file a.cab {cab.hex()}", "new cab", f"param i0 SALVAGE {salv}", "param i0 FIXMSZIP 1", "open i0 a.cab", "extract i0 h0 0 o0", "close i0 h0", "destroy i0"], \
                       dict(family="mszip.window-overrun", crossing=name, huff=kind, salvage=salv)
+            # the same frame followed by a second block and a second member: what the over-long frame leaves behind
+            # (o_ptr/o_end, bytes_output) is consumed by the *next* extract() call, in repair mode too
+            import zlib
+            co = zlib.compressobj(9, zlib.DEFLATED, -15); blk2 = b"CK" + co.compress(bytes(1000)) + co.flush()
+            cab, _ = minicab.build([(1, [(blk, 32768), (blk2, 1000)])], [dict(name=b"a.bin", length=32768, offset=0, folder=0),
+                                                                        dict(name=b"b.bin", length=1000, offset=32768, folder=0),
+                                                                        dict(name=b"c.bin", length=33000, offset=500, folder=0)])
+            for fix in (0, 1):
+                yield [f"file a.cab {cab.hex()}", "new cab", f"param i0 FIXMSZIP {fix}", "open i0 a.cab", "extract i0 h0 0 o0", "extract i0 h0 1 o1", "extract i0 h0 2 o2",
+                       "extract i0 h0 1 o1b", "close i0 h0", "destroy i0"], dict(family="mszip.window-overrun-next-call", crossing=name, huff=kind, fix=fix)
             kw = b"KWAJ\x88\xf0\x27\xd1" + struct.pack("<HHH", 4, 14, 0) + struct.pack("<H", len(blk)) + blk
             yield [f"file f.kwj {kw.hex()}", "new kwaj", "open i0 f.kwj", "extract i0 h0 - out", "close i0 h0", "destroy i0"], \
                   dict(family="mszip.window-overrun", crossing=name, huff=kind, container="kwaj")
 
+def chm_huge(rng):
+    """64-bit length fields just above 2^32 (low 32 bits small) for each CHM system file, with the header's file length
+    raised accordingly: every buffer sized from such a length must still be indexed within its real size"""
+    for which in ("rtable", "control", "spaninfo", "content"):
+        for low in (40, 48, 0x28 + 8 * 3, 1, 0):
+            for fadd in (1 << 32, 0):
+                try:
+                    c = S.chm_huge_lengths(rng, (1 << 32) + low, fadd, which)
+                except Exception as e:
+                    C.log(f"C02: chm_huge_lengths failed: {e!r}"); continue
+                yield S.file_lines(c) + ["new chm", "open i0 f.chm", "extract i0 h0 1 o1", "extract i0 h0 0 o0", "close i0 h0", "destroy i0"], \
+                      dict(family="chm.huge-length", which=which, low=low, fadd=fadd)
+
 def generate(ctx):
     rng = ctx.rng
     for lines, meta in directed(rng):
+        yield lines, meta
+    for lines, meta in chm_huge(rng):
         yield lines, meta
     for lines, meta in mszip_overrun(rng):
         yield lines, meta
